@@ -49,6 +49,10 @@ def run_case(case):
         clauses.append(cl)
     if clauses and rng.random() < 0.15:
         clauses.append(list(clauses[0]))
+    rng2 = random.Random("dup/%s" % case["seed"])   # separate stream: repeated literals inside a clause (legal CNF)
+    for cl in clauses:
+        if rng2.random() < 0.12:
+            cl.insert(rng2.randrange(len(cl) + 1), rng2.choice(cl))
     reqs = []
     for _ in range(rng.choice([0, 1, 1, 2, 3])):
         m = rng.randint(1, nv)
